@@ -93,6 +93,32 @@ pub fn check_entry(e: &StorageSlot, expect_index: U) -> Result<(), (String, Stri
         if again != s {
             return Err(("roundtrip-not-identical".into(), format!("{s} re-serialises as {again}")));
         }
+        // every other way serde_json reads and writes a document: bytes, a stream, a parsed value, pretty printing
+        let routes: Vec<(&str, Result<StorageSlot, String>)> = vec![
+            ("from_slice", serde_json::from_slice(s.as_bytes()).map_err(|x| x.to_string())),
+            ("from_reader", serde_json::from_reader(std::io::Cursor::new(s.as_bytes().to_vec())).map_err(|x| x.to_string())),
+            (
+                "from_value",
+                serde_json::to_value(e).map_err(|x| x.to_string()).and_then(|v| serde_json::from_value(v).map_err(|x| x.to_string())),
+            ),
+            (
+                "from_str(to_string_pretty)",
+                serde_json::to_string_pretty(e).map_err(|x| x.to_string()).and_then(|p| serde_json::from_str(&p).map_err(|x| x.to_string())),
+            ),
+            (
+                "from_reader(to_vec)",
+                serde_json::to_vec(e).map_err(|x| x.to_string()).and_then(|b| serde_json::from_reader(&b[..]).map_err(|x| x.to_string())),
+            ),
+        ];
+        for (route, r) in routes {
+            match r {
+                Err(x) => return Err((format!("deserialize-error:{route}"), format!("{x} on {s}"))),
+                Ok(b) if b != *e || from_ethnum(b.index.0) != expect_index => {
+                    return Err((format!("roundtrip-unequal:{route}"), format!("{s} reads back as {b:?}")))
+                }
+                Ok(_) => {}
+            }
+        }
         // independent reading of the document
         let doc: Value = serde_json::from_str(&s).map_err(|x| ("not-json".to_string(), x.to_string()))?;
         let Some(ix) = doc.get("index").and_then(Value::as_str) else {
@@ -303,7 +329,7 @@ impl Check for C20 {
             "complete enumeration of AbiType trees: 30 leaves (every leaf variant, sizes None/1/8/256, conflicts with and without \
              payload, empty struct), all depth-2 types (arrays of length 0/1/2^64/2^256-1, dynamic arrays, 1- and 2-element structs, \
              mappings over all leaf pairs), depth-3 types with {} second component, unary chains to depth 6; plus index in the \
-             boundary set ({} values) x every offset 0..=255 x 8 representative types. Oracle: from_str(to_string(e)) == e, byte-identical \
+             boundary set ({} values) x every offset 0..=255 x 8 representative types. Oracle: from_str(to_string(e)) == e (and the same through from_slice, from_reader, from_value(to_value(e)) and pretty printing), byte-identical \
              re-serialisation, index is 0x + 64 lowercase hex digits and an independent hex parser reads the exact value. \
              Every case is non-trivial; distinct by (index, offset, type JSON)",
             if tier.thorough() { "any depth<=2" } else { "a leaf as the" },
